@@ -363,7 +363,7 @@ pub fn run(part: &mut Part) {
                 vec![prof("empty+seeds x (A_write + XL)", s, aw, if q { 1 } else { 2 })]
             };
             let hs = probe_hash_seeds(&["a", "b", "f"], if q { 1 } else { 2 });
-            let policies: Vec<PolicyCfg> = if q { vec![PolicyCfg::Default] } else { vec![PolicyCfg::Default, PolicyCfg::AlwaysFsync, PolicyCfg::DelayExpiredFlush] };
+            let policies: Vec<PolicyCfg> = if q { vec![PolicyCfg::Default] } else { vec![PolicyCfg::Default, PolicyCfg::AlwaysFsync] };
             // every hasher seed under the default policy; the other flushing policies with the first seed
             let first = hs[0].0;
             let cfgs: Vec<CrashCfg> = hs.iter().flat_map(|(h, _)| policies.iter().map(move |pol| (*h, *pol))).filter(|(h, pol)| *pol == PolicyCfg::Default || *h == first).map(|(h, pol)| CrashCfg {
